@@ -8,7 +8,7 @@ ID = 'C04'
 PROPS_FILE = 'theories/Props/C04.v'
 PROPS_MODULE = 'Props.C04'
 COQ_TARGETS = ['theories/Extract/ExtractSyntax.vo']
-REQUIRED_THEOREMS = []
+REQUIRED_THEOREMS = ['C04_serialize_total', 'C04_indent_balanced', 'C04_output_extends', 'C04_junk_verbatim', 'C04_junk_skipped', 'C04_comment_lines', 'C04_roundtrip_simple_partial', 'C04_fixpoint_simple_partial', 'C04_simple_are_parser_outputs']
 MODEL = 'syn'
 HARNESS_BINS = ['syn_run']
 ANCHORS = ['fluent-syntax/src/serializer.rs', 'fluent-syntax/src/parser/pattern.rs', 'fluent-syntax/src/parser/comment.rs']
@@ -160,12 +160,17 @@ def nontrivial(case, out):
     return out if ('(msg ' in out or '(term ' in out) else None
 
 
+PARTIAL = ('serializer totality, balanced indentation, buffer growth, Junk and comment emission are proved for ALL trees; the round trip and the '
+           'fixed point are stated in full (C04_roundtrip_statement, C04_fixpoint_statement) but proved only for the fragment of C02 '
+           '(simple_resource); for all other parser outputs they are decided by the round-trip oracle on the implementation. The full '
+           'statements are refuted on the current tree by the known findings D7 and D21 (theorems ..._refuted_by_D7/_D21).')
+
 MANIFEST = {
-    'text': 'Rocq theorems about the Gallina transliteration of the serializer (SerializerModel.v) composed with the parser model. '
-            'Tied to the code by running parse/serialize/parse/serialize on the extracted model and on the real crate and comparing '
-            'both trees and both texts.',
-    'note': 'Trusted: as C01 plus String operations as list operations. See Props/C04.v for which statements are proved in full and '
-            'which are _partial; the implementation-side round-trip/fixed-point oracle runs on every case.',
-    'technique': 'Rocq proof (writer invariants, serializer totality on parser-shaped trees) + differential correspondence check + round-trip oracle',
-    'design_ref': 'DESIGN.md §4 C04',
+    'text': 'Rocq theorems about the Gallina transliteration of the serializer (SerializerModel.v): never panics and restores the indent '
+            'level for ALL trees; Junk verbatim / skipped; comment line format; round trip and fixed point PROVED for the fragment '
+            'simple_resource (composed with the parser model), and checked for every other parser output by running '
+            'parse/serialize/parse/serialize on the extracted model and on the real crate and comparing both trees and both texts.',
+    'note': 'PARTIAL proof of the round trip (fragment). Trusted: as C01 plus String operations as list operations. Known findings D7, D21.',
+    'technique': 'Rocq proof (writer invariants for all trees; print/parse round trip for a fragment) + differential correspondence check + round-trip oracle',
+    'design_ref': 'DESIGN.md §4 C04, §10',
 }
